@@ -20,6 +20,11 @@ from regions.io.ds9.meta import _split_raw_metadata, _translate_ds9_to_visual
 
 __all__ = []
 
+# DS9 writes these shapes with a leading "#" (as it does for text and
+# composite); such a line is a region line, not a comment
+_HASH_SHAPE_PREFIXES = ('# text(', '# composite(', '# vector(', '# ruler(',
+                        '# compass(', '# projection(', '# segment(')
+
 
 @RegionsRegistry.register(Regions, 'read', 'ds9')
 def _read_ds9(filename, cache=False):
@@ -110,7 +115,7 @@ def _split_lines(region_str):
     for line in region_str.split('\n'):
         line = line.strip()
         if (line.startswith('#')
-                and not line.lower().startswith(('# text(', '# composite('))):
+                and not line.lower().startswith(_HASH_SHAPE_PREFIXES)):
             # a comment extends to the end of the line, including any
             # semicolons
             lines.append(line)
@@ -150,7 +155,7 @@ def _parse_raw_data(region_str):
     supported_shapes = ['circle', 'ellipse', 'box', 'annulus', 'polygon',
                         'line', 'point', 'text', 'composite']
     unsupported_shapes = ['vector', 'ruler', 'compass', 'projection',
-                          'panda', 'epanda', 'bpanda']
+                          'segment', 'panda', 'epanda', 'bpanda']
 
     supported_frames_shapes = supported_frames + supported_shapes
     unsupported_frames_shapes = unsupported_frames + unsupported_shapes
@@ -165,7 +170,7 @@ def _parse_raw_data(region_str):
 
         # skip comments
         if (line.startswith('#')
-                and not line.lower().startswith(('# text(', '# composite('))):
+                and not line.lower().startswith(_HASH_SHAPE_PREFIXES)):
             continue
 
         original_line = line  # used to parse text and tag fields (keep case)
